@@ -21,6 +21,7 @@ EXPLANATION = (
     " C03.V6 also: with its parameter assumed to be an Array / an Object (A6 over the JSON-kind switch), no Ok exit of the full walker returns a copy of the parameter: no guard or fast path lets a container reach the scalar arm."
     " C03.V1 pairing is symmetric (neither insert is reachable without the other within an iteration) and the maps may be built in locals that are moved into the fields. C03.V2 accepts the reserved member found by iterating the object and comparing the key, guarded through a correlated Option."
     " C03.V1 also accepts the two-phase form (decode every presented string into a vector by one push per element, then zip the strings with that vector: the second component is the image of the first) and the duplicate test by the result of the insert itself (`if map.insert(k, v).is_some() { return Err }`)."
+    " C03.V1 key: the digest is taken over the presented string through identity conversions only (a trim / re-pad / case fold before hashing lets a string that differs from a genuine disclosure stand in for it)."
 )
 ASSUMPTIONS = [
     "SHA-256 collision resistance; base64/serde_json behave as documented",
@@ -94,7 +95,13 @@ def v1(ctx, fx):
                 tainted = True
                 break
             stack_.extend(x.kids)
-        if key_ok and not tainted:
+        altered = None
+        for h in hs:
+            altered = altered or common.not_verbatim(h.kids[0], lambda x: is_elem(x))
+        if key_ok and not tainted and altered is not None:
+            ctx.finding("C03.V1", writer, "key:%s" % which, "the digest is not taken over the presented string as it is: %s is applied to it first, so a string that differs from a genuine disclosure "
+                        "(padding, whitespace, case ..) is accepted in its place" % (altered.d["term"].get("name")), line=t.get("line"))
+        elif key_ok and not tainted:
             ctx.ok("C03.V1", writer, "key:%s" % which, "key = base64_hash(bytes of the presented disclosure string)", line=t.get("line"))
         else:
             ctx.finding("C03.V1", writer, "key:%s" % which, "the map key is not the digest of the presented string as presented (%s): a re-encoded disclosure could match" % vstr(key, 4), line=t.get("line"))
